@@ -97,6 +97,7 @@ Definition slice (s : str) (i j : nat) : str := firstn (j - i) (skipn i s).
 Definition slice_ok (s : str) (i j : nat) : bool :=
   Nat.leb i j && Nat.leb j (length s).
 
+Definition zero : ascii := Ascii.zero.
 Definition slash : ascii := "/"%char.
 Definition space : ascii := " "%char.
 Definition comma : ascii := ","%char.
